@@ -34,3 +34,7 @@ add("C12","exploration",
     "Held on every snapshot statement produced (thousands per run): the mock backend's client_encoding/DateStyle/TimeZone/standard_conforming_strings/application_name at the statement equal what the client had been told in ParameterStatus, for values with quotes, backslashes, semicolons, comments, non-ASCII and long values, across hand-overs between clients with different settings; startup values are told back unchanged.",
     "Trusted: mock GUC semantics (DESIGN 2.2) store values verbatim; SETs inside transaction blocks are not generated.",
     "runtime monitoring: GUC snapshot on mock backend per statement vs client-side ParameterStatus ledger", "DESIGN.md 5 C12")
+add("C18","exploration",
+    "Held on every quiescent point produced (hundreds per run): SHOW CLIENTS equals the harness ledger of connected clients (each once, right identity, idle), SHOW POOLS client/server counts add up and match the backend's open sessions, SHOW SERVERS/LISTS consistent, SHOW STATS totals equal the mock backend's count of client transactions and requests and never decrease; clients leave by Terminate, FIN, RST, FIN mid-transaction, malformed messages (decoder panics).",
+    "Trusted: harness ledger and mock counters; comparisons only at quiescence (two identical consecutive samples) because pgcat's counters are relaxed atomics; statement caching off.",
+    "runtime monitoring: admin console rows vs harness ledger and mock counters at quiescent points", "DESIGN.md 5 C18")
